@@ -29,7 +29,7 @@ class C07(Prop):
             'delivered by its new root); distinct = spec hash')
     assumptions = ('a nested unregistration need not complete (the statement speaks of completed ones only); counted as a class',
                    'components whose unregistration is in flight may or may not receive a probe (bracketed)')
-    budget = {'quick': (3000, 4), 'thorough': (15000, 16)}
+    budget = {'quick': (3000, 4), 'thorough': (120000, 16)}
     shrink_lists = {'ops': 0}
 
     def setup(self):
